@@ -157,8 +157,11 @@ def analyse(ch, ctx, st, pre, run_key):
     for j, (kind, k) in enumerate(plans):
         boot.set_run_key(f'{run_key}-eq{j}')
         ex = SimExecutor(ch, ctx) if kind == 'sim' else None
+        # the arguments are documented as iterables: one-shot generators are as good as tuples
+        one_shot = ch.chance('c18.one_shot_args', 1, 3)
         try:
-            eq = calculate_equities(ranges, board, hc, bc, deck, hand_types, sample_count=k, executor=ex)
+            eq = calculate_equities((r for r in ranges) if one_shot else ranges, iter(board) if one_shot else board, hc, bc, deck,
+                                    (h for h in hand_types) if one_shot else hand_types, sample_count=k, executor=ex)
         except Exception as e:      # noqa: BLE001
             raise Violation('C18.exc', f'calculate_equities on a full deal raised {type(e).__name__}: {e}; holes {holes} '
                             f'board {board}', rule='exc', exc=type(e).__name__)
